@@ -93,7 +93,7 @@ pub fn cases(tier: &str, seed: u64, focus: &str) -> Vec<PlanCase> {
             }
         }
     }
-    for _ in 0..(if thorough { 8000 } else { 1500 }) {
+    for _ in 0..(if thorough { 60000 } else { 1500 }) {
         let a = *rng.pick(&CLASSES);
         let b = *rng.pick(&CLASSES);
         let na = rng.range(1, 30);
@@ -106,7 +106,7 @@ pub fn cases(tier: &str, seed: u64, focus: &str) -> Vec<PlanCase> {
         let list = g.list(&mut rng, &s, false);
         out.push(PlanCase { stratum: "pairs", input: s, modes: g.modes(&mut rng, "C18"), list });
     }
-    for _ in 0..(if thorough { 3000 } else { 500 }) {
+    for _ in 0..(if thorough { 25000 } else { 500 }) {
         let n = rng.log_range(0, 500);
         let s = random_runs(&mut rng, n);
         let list = g.list(&mut rng, &s, false);
